@@ -1263,8 +1263,121 @@ class _ZlibStub:
             raise _zlib.error('Error -3 while decompressing data: incorrect header check')
         return SBytes(t[n:])
 
+    @staticmethod
+    def decompressobj(*a, **kw):
+        return _DecompressObjStub(a, kw)
+
     def __getattr__(self, name):
         return getattr(_zlib, name)
+
+
+ZTRUNC = b'\x00ZTRNC'  # tag of a TRUNCATED stream in the model (valid prefix of a stream: partial output, never reaches eof)
+ZLIB_MODEL = {'truncated_tag': False}   # a harness that can replay such a stream concretely (sync-flushed real stream) enables the tag
+
+
+class ZlibNoProgress(symex.BoundHit):
+    """decompressobj.decompress() keeps being called although it can make no progress any more (no input left, no output
+    produced, eof never reached): the caller's loop does not terminate.  A harness that checks termination catches it and
+    reports a refutation; elsewhere the path is cut and counted as a bound hit."""
+
+
+class _DecompressObjStub:
+    """zlib.decompressobj() over the tagged-identity model.
+
+    * fully concrete input: the real zlib object does the work (results wrapped as SBytes);
+    * symbolic input: the stream is classified when the first bytes arrive -
+        ZTAG + payload            complete stream: payload comes out 1:1, eof once it is drained
+        b'' / ZTAG[:1]            truncated stream without output (exactly what the real zlib says about these bytes)
+        ZTRUNC + payload          truncated stream with partial output (only when ZLIB_MODEL['truncated_tag'] is set)
+        anything else             zlib.error
+      The model knows no end-of-stream marker: the data of the FIRST call is taken to be the whole compressed body (so there
+      is no unused_data for symbolic input); later calls may only pass unconsumed_tail (or nothing).
+    * decompress() called again and again without progress raises ZlibNoProgress (see there)."""
+
+    def __init__(self, a=(), kw=None):
+        self._args, self._kw = a, kw or {}
+        self._mode = None          # None | 'real' | 'complete' | 'truncated'
+        self._real = None
+        self._pending = []
+        self._idle = 0
+        self._seen = 0
+        self.eof = False
+        self.unconsumed_tail = SBytes()
+        self.unused_data = SBytes()
+
+    def _progress(self, made):
+        if made:
+            self._idle = 0
+            return
+        self._idle += 1
+        if self._idle > self._seen + 2:
+            raise ZlibNoProgress(f'decompressobj.decompress() called {self._idle} times without progress '
+                                 f'(eof={self.eof}, {self._seen} input bytes seen)')
+
+    def _sync_real(self):
+        self.eof = self._real.eof
+        self.unconsumed_tail = SBytes(list(self._real.unconsumed_tail))
+        self.unused_data = SBytes(list(self._real.unused_data))
+
+    def decompress(self, data, max_length=0):
+        t = terms_of(data)
+        max_length = operator.index(max_length)
+        if max_length < 0:
+            raise ValueError('max_length must be non-negative')
+        concrete = all(isinstance(x, int) for x in t)
+        n = len(ZTAG)
+        if self._mode is None:
+            if len(t) >= n and all(isinstance(x, int) for x in t[:n]) and bytes(t[:n]) == ZTAG:
+                self._mode, self._pending = 'complete', t[n:]
+            elif ZLIB_MODEL['truncated_tag'] and len(t) >= n and all(isinstance(x, int) for x in t[:n]) and bytes(t[:n]) == ZTRUNC:
+                self._mode, self._pending = 'truncated', t[n:]
+            elif concrete:
+                self._mode, self._real = 'real', _zlib.decompressobj(*self._args, **self._kw)
+            elif len(t) >= n and _sym_truth(_and(*[_teq(x, y) for x, y in zip(t[:n], ZTAG)])):
+                self._mode, self._pending = 'complete', t[n:]
+            elif len(t) == 1 and _sym_truth(_teq(t[0], ZTAG[0])):
+                self._mode = 'truncated'
+            elif ZLIB_MODEL['truncated_tag'] and len(t) >= n and _sym_truth(_and(*[_teq(x, y) for x, y in zip(t[:n], ZTRUNC)])):
+                self._mode, self._pending = 'truncated', t[n:]
+            else:
+                raise _zlib.error('Error -3 while decompressing data: incorrect header check')
+            self._seen += len(t)
+        elif self._mode == 'real':
+            if not concrete:
+                raise HarnessError('decompressobj stand-in: symbolic data fed to a stream that started with concrete data')
+            self._seen += len(t)
+        else:
+            if t and not (len(t) == len(self._pending) and all(x is y or (isinstance(x, int) and x == y) for x, y in zip(t, self._pending))):
+                raise HarnessError('decompressobj stand-in: only unconsumed_tail may be fed after the first call (see docstring)')
+        if self._mode == 'real':
+            was_eof = self._real.eof
+            out = self._real.decompress(bytes(t), max_length)
+            self._sync_real()
+            # (a call that only swallows fresh input counts as idle too: harmless, the limit grows with the input seen)
+            self._progress(bool(out) or self.eof != was_eof)
+            return SBytes(list(out))
+        k = len(self._pending) if max_length == 0 else min(max_length, len(self._pending))
+        out, self._pending = self._pending[:k], self._pending[k:]
+        was_eof = self.eof
+        if self._mode == 'complete' and not self._pending:
+            self.eof = True
+        self.unconsumed_tail = SBytes(self._pending)
+        self._progress(bool(out) or self.eof != was_eof)
+        return SBytes(out)
+
+    def flush(self, length=None):
+        if self._mode == 'real':
+            out = self._real.flush() if length is None else self._real.flush(length)
+            self._sync_real()
+            return SBytes(list(out))
+        out, self._pending = self._pending, []
+        if self._mode == 'complete':
+            self.eof = True
+        self.unconsumed_tail = SBytes()
+        return SBytes(out)
+
+    def copy(self):
+        raise HarnessError('decompressobj stand-in: copy() not modelled')
 
 
 class _SocketStub:
@@ -1395,7 +1508,9 @@ STUBS = [
     'bytearray/bytes in primitives, messages, obfuscation, network.connection globals -> SBuf/SBytes (concrete length, BV8 bytes)',
     'range in the same modules -> lazily forking range for symbolic counts (concrete counts: builtin range)',
     'int in obfuscation globals -> int with from_bytes over BV terms (SWord: exact unbounded-int semantics by widening)',
-    'zlib in primitives globals -> tagged identity (compress(x)=TAG+x, decompress(other) raises zlib.error)',
+    'zlib in primitives globals -> tagged identity (compress(x)=TAG+x, decompress(other) raises zlib.error); zlib.decompressobj() -> '
+    'streaming stand-in over the same model (complete / truncated (eof never reached, unconsumed_tail empty) / corrupt; concrete data: real zlib object), '
+    'which signals ZlibNoProgress when decompress() is called more than len(data)+2 times without progress',
     'socket in primitives globals -> inet_aton/inet_ntoa over 4 symbolic octets (canonical dotted quad)',
     'secrets in obfuscation globals -> key bytes supplied by the harness (symbolic BV8 x4; model bytes in replay)',
 ]
@@ -1606,6 +1721,113 @@ def harvest_vectors(path=TEST_VECTORS):
     return rec, outcomes
 
 
+def _drive_inflate(factory, stream, k):
+    """the canonical bounded-inflate loop (decompress(chunk, k); chunk = unconsumed_tail; until eof), cut when it stalls.
+    returns (outcome, output terms, eof, len(unconsumed_tail), unused_data terms, flushed terms)"""
+    d = factory()
+    out, chunk, calls = [], stream, 0
+    limit = len(terms_of(stream)) + 3
+    outcome = 'eof'
+    try:
+        while not d.eof:
+            if calls > 3 * limit + 50:
+                outcome = 'stall'
+                break
+            piece = d.decompress(chunk, k)
+            out += terms_of(piece)
+            chunk = d.unconsumed_tail
+            calls += 1
+            if not terms_of(piece) and not terms_of(chunk) and not d.eof and calls > limit:
+                outcome = 'stall'
+                break
+    except ZlibNoProgress:
+        outcome = 'stall'
+    except _zlib.error:
+        return ('error', None, None, None, None, None)
+    return (outcome, out, bool(d.eof), len(terms_of(d.unconsumed_tail)), terms_of(d.unused_data), terms_of(d.flush()))
+
+
+def _validate_decompressobj(rng):
+    """the streaming stand-in against the real zlib.decompressobj: same outcome (eof / stalls forever / zlib.error), same
+    output, eof flag, unconsumed_tail and unused_data on complete, truncated (with and without output), empty, corrupt and
+    trailing-garbage streams, for several max_length values; the symbolic 1-byte classification under a tiny exploration"""
+    z = _ZlibStub()
+    n = 0
+    for ln in (0, 1, 2, 7, 40, 300):
+        x = bytes(rng.randrange(256) for _ in range(ln))
+        co = _zlib.compressobj()
+        cases = {
+            'complete': (_zlib.compress(x), list(ZTAG) + [z3.BitVec(f'_zd{i}', 8) for i in range(ln)], 'eof', True),
+            'truncated': (co.compress(x) + co.flush(_zlib.Z_SYNC_FLUSH), list(ZTRUNC) + [z3.BitVec(f'_zd{i}', 8) for i in range(ln)], 'stall', True),
+            'cut': (_zlib.compress(x)[:-1], None, 'stall', False),
+            'empty': (b'', None, 'stall', False),
+            'one byte': (b'\x78', None, 'stall', False),
+            'tag byte': (ZTAG[:1], None, 'stall', False),
+            'corrupt': (bytes([_zlib.compress(x)[0] ^ 0x40]) + _zlib.compress(x)[1:], [0x41] + [z3.BitVec(f'_zd{i}', 8) for i in range(ln + 6)], 'error', False),
+            'model tag (real zlib must reject it)': (ZTAG + x, 'skip', 'error', False),
+            'model truncation tag (real zlib must reject it)': (ZTRUNC + x, 'skip', 'error', False),
+            'garbage after': (_zlib.compress(x) + b'GARBAGE', None, 'eof', False),
+        }
+        for k in (0, 1, 5, 64):
+            for name, (real_stream, model_stream, want, compare_output) in cases.items():
+                n += 1
+                r = _drive_inflate(_zlib.decompressobj, real_stream, k)
+                if r[0] != want:
+                    raise HarnessError(f'decompressobj validation: real zlib gives {r[0]} on a {name} stream, expected {want}')
+                if model_stream == 'skip':
+                    continue
+                # the stand-in on the very same concrete bytes (delegation to the real object, wrapped)
+                g = _drive_inflate(z.decompressobj, SBytes(list(real_stream)), k)
+                if g[0] != r[0] or (g[0] != 'error' and (bytes(g[1]) != bytes(r[1]) or g[2:4] != r[2:4] or bytes(g[4]) != bytes(r[4]))):
+                    raise HarnessError(f'decompressobj stand-in (concrete data) differs from zlib on a {name} stream, max_length {k}')
+                if model_stream is None:
+                    continue
+                ZLIB_MODEL['truncated_tag'] = True
+                try:
+                    m = _drive_inflate(z.decompressobj, SBytes(model_stream), k)
+                finally:
+                    ZLIB_MODEL['truncated_tag'] = False
+                if m[0] != r[0]:
+                    raise HarnessError(f'decompressobj stand-in (model) gives {m[0]} on a {name} stream, zlib {r[0]} (max_length {k})')
+                if m[0] == 'error':
+                    continue
+                vars_ = model_stream[len(ZTAG):]
+                same_out = len(m[1]) == len(vars_) and all(a is b for a, b in zip(m[1], vars_)) and bytes(r[1]) == x
+                if not same_out or m[2:4] != r[2:4] or m[4] != [] or bytes(r[4]) != b'' or m[5] != [] or bytes(r[5]) != b'':
+                    raise HarnessError(f'decompressobj stand-in (model) differs from zlib on a {name} stream, max_length {k}: {m[2:]} vs {r[2:]}')
+    # one-shot decompress must reject what the streaming object calls truncated (zlib: "incomplete or truncated stream")
+    for bad in (b'', ZTAG[:1], _zlib.compress(b'abc')[:-1]):
+        for f in (_zlib.decompress, z.decompress):
+            try:
+                f(bad)
+                raise HarnessError('one-shot decompress accepted a truncated stream')
+            except _zlib.error:
+                pass
+    # flush() hands out what max_length held back
+    for factory, stream in ((_zlib.decompressobj, _zlib.compress(b'hello world')), (z.decompressobj, SBytes(list(ZTAG) + list(b'hello world')))):
+        d = factory()
+        a = terms_of(d.decompress(stream, 5))
+        b = terms_of(d.flush())
+        if bytes(a) != b'hello' or bytes(b) != b' world' or not d.eof:
+            raise HarnessError('decompressobj flush()')
+
+    # symbolic classification of a 1-byte body: the tag byte is a truncated stream, everything else is corrupt
+    seen = {}
+
+    def h(c):
+        b = c.fresh_bv('zb', 8)
+        r = _drive_inflate(z.decompressobj, SBytes([b]), 16)
+        c.check(SBool(b == ZTAG[0]) if r[0] == 'stall' else SBool(b != ZTAG[0]) if r[0] == 'error' else False, 'classified')
+        seen[r[0]] = seen.get(r[0], 0) + 1
+    ex = symex.Explorer(h, {}, 'decompressobj-classification')
+    ex.run()
+    if ex.failures or sorted(seen) != ['error', 'stall'] or not ex.exhausted:
+        raise HarnessError(f'decompressobj stand-in: symbolic 1-byte classification wrong: {seen} {[f.label for f in ex.failures]}')
+    return (f'zlib.decompressobj stand-in == real zlib on {n} (stream kind, max_length) cases: complete, truncated with/without output, empty, '
+            f'corrupt, trailing garbage (outcome eof/stalls/error, output, eof, unconsumed_tail, unused_data, flush); symbolic 1-byte body: tag byte '
+            f'stalls, any other byte is an error')
+
+
 def validate(path=TEST_VECTORS, deep=True):
     """differential validation of every stub against the real function.  Raises HarnessError on
     any disagreement; returns a list of notes for the evidence."""
@@ -1729,6 +1951,7 @@ def validate(path=TEST_VECTORS, deep=True):
         except OSError:
             pass
     notes.append('zlib stand-in obeys decompress(compress(x)) == x and rejects untagged buffers like zlib rejects garbage; inet_aton/ntoa agree')
+    notes.append(_validate_decompressobj(rng))
 
     # 4. the repository's own vectors: real codec vs stubbed codec, test by test
     rec, real_out = harvest_vectors(path)
